@@ -83,6 +83,34 @@ impl<T: ?Sized> Mutex<T> {
         }
     }
 
+    /// Non-blocking attempt: a scheduling point, then the lock is taken if the scheduler knows it
+    /// to be free (the std lock is only touched once ownership was granted).
+    pub fn try_lock(&self) -> TryLockResult<MutexGuard<'_, T>> {
+        let sim = match current() {
+            Some((w, me)) => {
+                let id = self.id.get(&w, sched::new_mutex_id);
+                w.switch(me, Want::Run);
+                if !sched::try_acquire_mutex(&w, me, id) {
+                    return Err(TryLockError::WouldBlock);
+                }
+                Some((w, me, id))
+            }
+            None => {
+                return match self.inner.try_lock() {
+                    Ok(g) => Ok(MutexGuard { lock: self, inner: Some(g), sim: None }),
+                    Err(TryLockError::WouldBlock) => Err(TryLockError::WouldBlock),
+                    Err(TryLockError::Poisoned(p)) => {
+                        Err(TryLockError::Poisoned(PoisonError::new(MutexGuard { lock: self, inner: Some(p.into_inner()), sim: None })))
+                    }
+                };
+            }
+        };
+        match self.inner.lock() {
+            Ok(g) => Ok(MutexGuard { lock: self, inner: Some(g), sim }),
+            Err(p) => Err(TryLockError::Poisoned(PoisonError::new(MutexGuard { lock: self, inner: Some(p.into_inner()), sim }))),
+        }
+    }
+
     pub fn is_poisoned(&self) -> bool {
         self.inner.is_poisoned()
     }
@@ -349,6 +377,55 @@ impl<T: ?Sized> RwLock<T> {
                 inner: Some(p.into_inner()),
                 sim,
             })),
+        }
+    }
+
+    /// Non-blocking attempts (a scheduling point, then granted only if free)
+    pub fn try_read(&self) -> TryLockResult<RwLockReadGuard<'_, T>> {
+        let sim = match current() {
+            Some((w, me)) => {
+                let id = self.id.get(&w, sched::new_rw_id);
+                w.switch(me, Want::Run);
+                if !sched::try_acquire_rw(&w, me, id, false) {
+                    return Err(TryLockError::WouldBlock);
+                }
+                Some((w, me, id))
+            }
+            None => {
+                return match self.inner.try_read() {
+                    Ok(g) => Ok(RwLockReadGuard { inner: Some(g), sim: None }),
+                    Err(TryLockError::WouldBlock) => Err(TryLockError::WouldBlock),
+                    Err(TryLockError::Poisoned(p)) => Err(TryLockError::Poisoned(PoisonError::new(RwLockReadGuard { inner: Some(p.into_inner()), sim: None }))),
+                };
+            }
+        };
+        match self.inner.read() {
+            Ok(g) => Ok(RwLockReadGuard { inner: Some(g), sim }),
+            Err(p) => Err(TryLockError::Poisoned(PoisonError::new(RwLockReadGuard { inner: Some(p.into_inner()), sim }))),
+        }
+    }
+
+    pub fn try_write(&self) -> TryLockResult<RwLockWriteGuard<'_, T>> {
+        let sim = match current() {
+            Some((w, me)) => {
+                let id = self.id.get(&w, sched::new_rw_id);
+                w.switch(me, Want::Run);
+                if !sched::try_acquire_rw(&w, me, id, true) {
+                    return Err(TryLockError::WouldBlock);
+                }
+                Some((w, me, id))
+            }
+            None => {
+                return match self.inner.try_write() {
+                    Ok(g) => Ok(RwLockWriteGuard { inner: Some(g), sim: None }),
+                    Err(TryLockError::WouldBlock) => Err(TryLockError::WouldBlock),
+                    Err(TryLockError::Poisoned(p)) => Err(TryLockError::Poisoned(PoisonError::new(RwLockWriteGuard { inner: Some(p.into_inner()), sim: None }))),
+                };
+            }
+        };
+        match self.inner.write() {
+            Ok(g) => Ok(RwLockWriteGuard { inner: Some(g), sim }),
+            Err(p) => Err(TryLockError::Poisoned(PoisonError::new(RwLockWriteGuard { inner: Some(p.into_inner()), sim }))),
         }
     }
 
